@@ -266,32 +266,31 @@ Proof.
   rewrite H. reflexivity.
 Qed.
 
-(* the other direction: a request that must run exclusively is rejected while any other change is in progress, except
-   through the loophole: a refresh-snap / revert-snap change that is not a snapd downgrade *)
-Definition loophole (c : change) : bool :=
-  negb (kind_in (c_kind c) excl_always) && negb (kind_in (c_kind c) excl_ignorable) &&
-  kind_in (c_kind c) excl_downgrade && negb (c_dg c) && negb nondowngrade_blocks_new_exclusive.
+(* the other direction: a request that must run exclusively is rejected while any other change is in progress *)
+Lemma ordinary_refresh_blocks : nondowngrade_blocks_new_exclusive = true.
+Proof. reflexivity. Qed.
 
 Theorem new_exclusive_refused : forall st c kind dg ignore same snaps tasks,
-  In c st -> c_ready c = false -> is_ignored c ignore = false -> loophole c = false ->
+  In c st -> c_ready c = false -> is_ignored c ignore = false ->
   rejected st (Request kind dg true ignore same snaps tasks) = true.
 Proof.
-  intros st c kind dg ignore same snaps tasks Hin Hr Hig Hl. cbn [rejected].
+  intros st c kind dg ignore same snaps tasks Hin Hr Hig. cbn [rejected].
   assert (H : check_exclusive st true ignore = true).
-  { unfold check_exclusive. apply existsb_exists. exists c. split; [exact Hin|]. unfold excl_hit. rewrite Hr, Hig. cbn [negb andb].
-    unfold loophole in Hl. revert Hl. generalize nondowngrade_blocks_new_exclusive. intros flag.
+  { unfold check_exclusive. apply existsb_exists. exists c. split; [exact Hin|]. unfold excl_hit. rewrite Hr, Hig.
+    rewrite ordinary_refresh_blocks. cbn [negb andb].
     destruct (kind_in (c_kind c) excl_always); [reflexivity|].
     destruct (kind_in (c_kind c) excl_ignorable); [reflexivity|].
     destruct (kind_in (c_kind c) excl_downgrade); [|reflexivity].
-    destruct (c_dg c); [reflexivity|]. destruct flag; cbn; [reflexivity | discriminate]. }
+    destruct (c_dg c); reflexivity. }
   rewrite H. cbn. rewrite orb_true_r. reflexivity.
 Qed.
 
-(* the full statement (no loophole) is false of the faithful model *)
-Definition loophole_state : state := [mkChange 1 (bs "refresh-snap"%string) false [mkTask [1] false]].
-Lemma new_exclusive_loophole_witness :
-  c_ready (hd (mkChange 0 [] false []) loophole_state) = false /\
-  rejected loophole_state (Request (bs "remodel"%string) false true None true [2] [mkTask [2] false]) = false.
+(* regression witness of a repaired defect: with an ordinary refresh-snap change in progress a remodel request on
+   another snap used to be accepted *)
+Definition refresh_in_progress : state := [mkChange 1 (bs "refresh-snap"%string) false [mkTask [1] false]].
+Lemma remodel_during_refresh_rejected :
+  rejected refresh_in_progress (Request (bs "remodel"%string) false true None true [2] [mkTask [2] false]) = true /\
+  rejected refresh_in_progress (Request (bs "remodel"%string) false false None true [2] [mkTask [2] false]) = false.
 Proof. vm_compute. split; reflexivity. Qed.
 
 (* a stale snap record *)
